@@ -26,6 +26,9 @@ type Run struct {
 	Pads   []Pad              `json:"pads"`
 	// expectation override for this run (metamorphic families)
 	Out *[]int `json:"out"`
+	// per-run engine options
+	Debug  bool   `json:"debug"`
+	Writer string `json:"writer"`
 }
 
 type Expect struct {
@@ -248,7 +251,8 @@ func renderRun(c *Case, r *Run, ctx map[string]interface{}) (o obs) {
 	if c.Cfg.Sandbox {
 		e.EnableSandbox(makePolicy(c.Cfg))
 	}
-	if c.Cfg.Debug {
+	if c.Cfg.Debug || r.Debug {
+		defer twig.SetDebugLevel(twig.DebugOff) // the debug level is process-wide
 		e.SetDebug(true)
 		twig.SetDebugWriter(io.Discard)
 	}
@@ -277,7 +281,11 @@ func renderRun(c *Case, r *Run, ctx map[string]interface{}) (o obs) {
 	}
 	var out string
 	var err error
-	switch c.Cfg.Writer {
+	writer := c.Cfg.Writer
+	if r.Writer != "" {
+		writer = r.Writer
+	}
+	switch writer {
 	case "buffer":
 		var b bytes.Buffer
 		err = e.RenderTo(&b, entry, ctx)
